@@ -172,6 +172,28 @@ func c18Body(env *simrt.Env, hold bool) {
 		wb.Close()
 		wb.Unlink() // normally already gone (unlinked right after both handles were mapped)
 	}()
+	if simrt.Draw(3) == 0 {
+		// an earlier life of the same shared-memory names: a writer created the ring, data went in, only
+		// part came out, the processes went away without unlinking. The ring created next must start empty.
+		if old, _ := NewRingBuffer(rawName, descName); old != nil {
+			osize := c18Size()
+			if err := old.Create(osize); err == nil {
+				junk := make([]byte, 1+simrt.Draw(osize))
+				for i := range junk {
+					junk[i] = 0xEE
+				}
+				nw, _ := old.Write(junk)
+				nr := 0
+				if nw > 0 {
+					d, _ := old.Read(simrt.Draw(nw + 1))
+					nr = len(d)
+				}
+				old.Close()
+				env.Op("earlier life of the same names: ring of %d bytes, %d written, %d read, closed without unlinking", osize, nw, nr)
+				simrt.Hit("created-over-leftover-region")
+			}
+		}
+	}
 	if err := wb.Create(w.size); err != nil {
 		simrt.Fail("C18.setup", "harness:cannot-create-ring", "Create(%d) in /dev/shm: %v", w.size, err)
 	}
